@@ -1,3 +1,5 @@
+import DSV.Proofs.Skeleton
+import DSV.Generated.Skeleton
 import DSV.Model.CommitFault
 /-!
 C04 — a failed, interrupted or ambiguous commit never damages committed data.
@@ -72,3 +74,28 @@ theorem reuse_without_reset_deletes_earlier_files :
     (attempt false m1 [2] .cleanFailure).2 = [1, 2] := by decide
 
 end DSV.CommitFault
+
+/-! ## Tie to the current source: which handler of `Transaction.commit` keeps and which deletes the written files -/
+namespace DSV.Src.C04
+open DSV.Skel DSV.Generated.Skel
+
+/-- **source_commit_handlers** — in the CURRENT source: a conflict (retries exhausted) and a known-pre-commit error roll back
+deleting the written files; an ambiguous pointer write and an interrupt (BaseException) deactivate the transaction KEEPING
+them; nothing fallible follows the commit call but `_finish_committed`. -/
+theorem source_commit_handlers :
+    project txVoc txCommit = ["finish", "commit", "commit", "finish",
+                              "onConflict", "rollbackDelete", "onAmbiguous", "rollbackKeep",
+                              "onError", "rollbackDelete", "onInterrupt", "rollbackKeep", "rollbackDelete"] := by decide
+
+/-- **source_finish_swallows** — `_finish_committed` (after the commit point) removes markers inside a catch-all handler. -/
+theorem source_finish_swallows :
+    txFinishCommitted = ["try", "file_manager.storage.delete_file", "except:Exception", "end-try"] := by decide
+
+/-- **source_flip_failure_classes** — the commit-point routine maps a CAS conflict to a retryable conflict and every other
+failure of a conditional or non-atomic write to AmbiguousCommitError. -/
+theorem source_flip_failure_classes :
+    project [("except:CASConflictError", "onCas"), ("raise:ConcurrentModificationException", "conflict"),
+             ("except:Exception", "onOther"), ("raise:AmbiguousCommitError", "ambiguous"), ("raise", "reraise")] mmWriteHint
+      = ["onCas", "conflict", "onOther", "ambiguous", "onOther", "reraise", "ambiguous"] := by decide
+
+end DSV.Src.C04
